@@ -37,7 +37,7 @@ func init() {
 		Run:     runC17,
 		Rule: "seeded cases: SkipInterval in {negative,1ms,20ms,200ms,default}, 0..5 callbacks (nil and empty slice), phases of concurrent bursts (1..32 callers) and sequential calls separated by sleeps of {0, Skip/2, 1.3*Skip}; " +
 			"oracle over the callback log and the callers' call/return timestamps (monotonic bracketing only, never a deadline); distinct_nontrivial = distinct (interval, callbacks, phase pattern) cases with at least one accepted and one further call",
-		Required:    []string{"calls.accepted", "calls.rejected", "nothing_to_invalidate", "spacing.pairs", "must_accept.checked", "burst.cases", "chain.cases", "spacing.tightened_by_previous_run"},
+		Required:    []string{"calls.accepted", "calls.rejected", "nothing_to_invalidate", "spacing.pairs", "must_accept.checked", "burst.cases", "chain.cases", "spacing.tightened_by_previous_run", "registered_during_run.calls_checked"},
 		Assumptions: []string{"monotonic clock readings of time.Now() are consistent across goroutines"},
 		Timeout:     func(string) time.Duration { return 20 * time.Minute },
 	})
@@ -90,6 +90,8 @@ func c17Case(b *Batch, idx int) {
 		nCb = 1
 	}
 	slowOnceDone := false
+	registerDuringRun := chain && rng.Intn(2) == 0
+	regPos := -1 // log position at which the extra callback was registered
 	cbMode := "slice"
 	var mu sync.Mutex
 	var log []c17LogEntry
@@ -118,6 +120,21 @@ func c17Case(b *Batch, idx int) {
 			}
 			if chain && c == 0 && first {
 				time.Sleep(effSkip*5/2 + time.Millisecond) // only the very first accepted run is slow
+				if registerDuringRun {
+					// register one more callback while this run holds the Invalidator's lock (callbacks run under it):
+					// every call accepted afterwards, also one that has been waiting for the lock, must run it
+					extra := nCb
+					inv.Callbacks = append(inv.Callbacks, func(ctx context.Context) {
+						id, _ := ctx.Value(c17CallID{}).(int)
+						mu.Lock()
+						now := time.Now()
+						log = append(log, c17LogEntry{call: id, cb: extra, at: now, end: now})
+						mu.Unlock()
+					})
+					mu.Lock()
+					regPos = len(log)
+					mu.Unlock()
+				}
 			}
 			mu.Lock()
 			log[pos].end = time.Now()
@@ -225,7 +242,20 @@ func c17Case(b *Batch, idx int) {
 		case c.err == nil:
 			accepted = append(accepted, c)
 			b.R.Count("calls.accepted", 1)
-			ok := len(entries) == nCb
+			wantCb := nCb
+			if regPos >= 0 && len(entries) > 0 {
+				// position of this call's first entry in the global log
+				for pos, le := range log {
+					if le.call == c.id {
+						if pos >= regPos {
+							wantCb = nCb + 1
+							b.R.Count("registered_during_run.calls_checked", 1)
+						}
+						break
+					}
+				}
+			}
+			ok := len(entries) == wantCb
 			for i, e := range entries {
 				if e.cb != i {
 					ok = false
@@ -236,7 +266,7 @@ func c17Case(b *Batch, idx int) {
 				for _, e := range entries {
 					got = append(got, e.cb)
 				}
-				fail("callbacks", fmt.Sprintf("accepted call ran callbacks %v, want 0..%d in order exactly once", got, nCb-1))
+				fail("callbacks", fmt.Sprintf("accepted call ran callbacks %v, want 0..%d in order exactly once", got, wantCb-1))
 			}
 		case errors.Is(c.err, cache.ErrAlreadyInvalidated):
 			b.R.Count("calls.rejected", 1)
